@@ -788,7 +788,25 @@ func (g *Gen) Value() interface{} {
 		}
 		return p.Interface()
 	case TopScalar:
-		switch g.ch.Intn(7, "top.scalar") {
+		switch g.ch.Intn(9, "top.scalar") {
+		case 7:
+			// a named map type at top level travels as a typed map ('M' type ... 'Z')
+			m := Labels{}
+			n := g.ch.Range(0, 4, "labels.n")
+			for i := 0; i < n; i++ {
+				m[g.str(true)] = g.str(true)
+			}
+			g.note("top.namedmap")
+			return m
+		case 8:
+			// a named slice type at top level travels as a typed list carrying its own name
+			n := g.listLen()
+			l := make(IDs, n)
+			for i := range l {
+				l[i] = int32(g.int64In(-1<<31, 1<<31-1, intEdges32))
+			}
+			g.note("top.namedslice")
+			return l
 		case 0:
 			return int32(g.int64In(-1<<31, 1<<31-1, intEdges32))
 		case 1:
